@@ -13,6 +13,7 @@ def extra(led, tier, seed):
     led.extend(o for o in validation.function_domains() if any(k in o.name for k in ("draw_gmm", "student", "gstm", "celeux")))
     led.extend(datasets.bounded_moments(seed, tier))
     led.extend(datasets.native_streams())
+    led.extend(datasets.native_int_float())
     led.assume("A1 (n <= 3 (4) samples and all enumerated label vectors; dimensions as documented)", "A2", "A3",
                "A5: RandomState.normal / multivariate_normal / chisquare / choice / permutation follow the laws their contracts state",
                "'within sampling error' is replaced by the exact statement of which tagged draw each returned entry is; the empirical moments of finite samples are a bounded check (B)")
